@@ -169,7 +169,9 @@ fn run_schedule(dir: &Path, ifh: bool, initial_refs: u64, progs: &[Vec<Op>], cho
     let s2 = sched.clone();
     fuse_backend_rs::verif::set_yield_callback(Some(Arc::new(move |p| {
         let tid = TID.with(|t| t.get());
-        if tid != usize::MAX {
+        // point 7 is reached under the inode-map write lock: parking there would block every thread that
+        // needs the lock before it can park; the scheduled walks let it pass (the stress mode delays there)
+        if tid != usize::MAX && p != 7 {
             s2.park(tid, p);
         }
     })));
@@ -388,8 +390,16 @@ pub fn run(args: &Args, rep: &mut Report) {
         let t0 = Instant::now();
         let mut rounds = 0u64;
         let mut r = Rng::derive(args.seed, "C09stress", args.shard, 0);
-        fuse_backend_rs::verif::set_yield_callback(Some(Arc::new(|_p| {
+        fuse_backend_rs::verif::set_yield_callback(Some(Arc::new(|p| {
             let x = STRESS_DELAY.fetch_add(0x9E37_79B9, Ordering::Relaxed);
+            if p == 7 {
+                // forget_one between its load and its compare-exchange (write lock held): widen the window in
+                // which a lookup that already holds the inode object updates the count
+                if x % 2 == 0 {
+                    std::thread::sleep(Duration::from_micros(20 + x % 150));
+                }
+                return;
+            }
             match x % 7 {
                 0 => std::thread::yield_now(),
                 1 => {
